@@ -1361,3 +1361,25 @@ M("c12-comparator-runs-on-copied-globals", ["C12"], CX,
 M("c08-delete-returns-found-flag", ["C08"], VM,
   "            obj.delete(key_str)\n            # true unless the property exists and cannot be deleted; objects\n            # have no such properties, and deleting one that is not there\n            # succeeds\n            return True\n", "            return obj.delete(key_str)\n",
   [("C08", "C08-R22", "_delete_property")], note="fix 3c567ff reverted")
+M("c07-sub-plain-conversion", ["C07"], VM,
+  "            a_num = self._to_number(a)\n            b_num = self._to_number(b)\n            self.stack.append(js_number(a_num - b_num))\n", "            self.stack.append(js_number(to_number(a) - to_number(b)))\n",
+  [("C07", "C07-R12", "SUB")], note="fix e46fd48 reverted for -")
+M("c07-pow-right-operand-first", ["C07"], VM,
+  "            a_num = self._to_number(a)\n            b_num = self._to_number(b)\n            self.stack.append(js_pow(a_num, b_num))\n", "            b_num = self._to_number(b)\n            a_num = self._to_number(a)\n            self.stack.append(js_pow(a_num, b_num))\n",
+  [("C07", "C07-R12", "POW")], note="operands converted right to left")
+
+# ---- wave 16 --------------------------------------------------------------------------------------------
+S("seed-C01-i", ["C01"], "seeded/C01-i/patch.diff", [("C01", "C01-R4", "_compile_string_pattern")], note="string patterns of match compiled through a process-wide cache without a poll callback; one call site forgets to adopt the regex")
+S("seed-C04-h", ["C10", "C20"], "seeded/C04-h/patch.diff", [("C10", "C10-R10", "exec"), ("C20", "C20-R9", "exec")], note="written against C04: exec folded into one dispatch, the beyond-the-end test only on the search path - sticky regexes enter the matcher past the subject (host IndexError)")
+S("seed-C06-h", ["C06"], "seeded/C06-h/patch.diff", [("C06", "C06-R5", "INC|DEC")], note="++/-- fast path for ints pushes a + 1 without the normaliser")
+TP("t-inc-dec-int-fast-path", ALL_PROPS, "selftest/patches/t-inc-dec-int-fast-path.diff", note="the same fast path through js_number (repaired C06-h)")
+S("seed-C09-i", ["C09"], "seeded/C09-i/patch.diff", [("C09", "C09-R10", "_run_lookbehind")], note="the lookbehind's scratch copy of the captures hoisted out of the loop over start positions")
+S("seed-C11-h", ["C11"], "seeded/C11-h/patch.diff", [("C11", "C11-R8", "_to_python")], note="empty containers skip the bookkeeping; one branch returns after entering the path and before the try that pops it")
+S("seed-C13-h", ["C13"], "seeded/C13-h/patch.diff", [("C13", "C13-R10", "_skip_whitespace")], note="block comments skipped with str.find from one character into the opener: /*/ is a complete comment")
+S("seed-C14-h", ["C14"], "seeded/C14-h/patch.diff", [("C14", "C14-R1", "_emit|_patch_jump|_encode_jump_target")], note="jump encoding folded into a helper that _emit calls unchecked: the backward jump of do-while has no forward jump to carry the size check")
+S("seed-C15-i", ["C15"], "seeded/C15-i/patch.diff", [("C15", "C15-R1f", "accessor_keys")], note="accessor keys listed through list(set(getters) | set(setters)): for-in and Object.keys follow the hash seed")
+TP("t-accessor-keys-enumerated", ALL_PROPS, "selftest/patches/t-accessor-keys-enumerated.diff", note="the same feature with an insertion-ordered union (repaired C15-i)")
+S("seed-C16-h", ["C16"], "seeded/C16-h/patch.diff", [("C16", "C16-R7", "position")], note="position helper uses its default only for a missing argument: endsWith(x, undefined) clamps to 0")
+TP("t-string-position-default", ALL_PROPS, "selftest/patches/t-string-position-default.diff", note="the same helper handing its default to to_integer (repaired C16-h)")
+S("seed-C18-h", ["C18"], "seeded/C18-h/patch.diff", [("C18", "C18-R19", "_global_parseint")], note="parseInt digit table looked up with ch.lower(): U+212A KELVIN SIGN becomes the digit k")
+TP("t-parseint-digit-table", ALL_PROPS, "selftest/patches/t-parseint-digit-table.diff", note="the same table behind an isascii() test (repaired C18-h)")
